@@ -75,7 +75,7 @@ Definition check_case (c : tcase) : bool :=
   | TFrag place p o =>
       match match_obs true place (run_env fuel p) o with
       | None => true
-      | Some b => b && model_selfcheck p
+      | Some b => b && (if N.eqb place 0 then model_selfcheck p else true)
       end
   | TMeta a b => list_eqb (list_eqb Z.eqb) a b
   | TFail => false
